@@ -325,7 +325,16 @@ func (s *Server) ListenContext(x context.Context, name, addr string, p cfg.Profi
 		listener:   v,
 		connection: connection{s: s, m: s, p: p, w: w, t: t, log: s.log},
 	}
-	if s.init.Do(func() { go s.listen() }); cout.Enabled {
+	if s.init.Do(func() {
+		// KeyCrypt: Generate the Server KeyPair (if none was loaded) before the
+		//           first Listener can accept a client. The event thread used to
+		//           do this on its own, racing the first registration which then
+		//           used an empty PrivateKey/PublicKey.
+		if s.Keys.Empty() {
+			s.Keys.Fill()
+		}
+		go s.listen()
+	}); cout.Enabled {
 		s.log.Info(`[%s] Added Listener on "%s"!`, n, h)
 	}
 	l.ctx, l.cancel = context.WithCancel(x)
